@@ -11,9 +11,11 @@ import (
 	"crypto/elliptic"
 	"crypto/rand"
 	"crypto/rsa"
+	"crypto/sha256"
 	"crypto/tls"
 	"crypto/x509"
 	"crypto/x509/pkix"
+	"encoding/asn1"
 	"encoding/pem"
 	"fmt"
 	"io"
@@ -37,9 +39,9 @@ type c19Case struct {
 	OwnCert  bool   `json:"own_cert"`
 	Bundle   string `json:"bundle"` // "A" | "A+other"
 	RSA      bool   `json:"rsa"`
-	TLS12    bool   `json:"tls12"`    // peer limits itself to TLS 1.2
-	Hint     bool   `json:"hint"`     // client role of the peer: stock behaviour (respect the CA hint) instead of sending regardless
-	SerialNo int64  `json:"serial"`   // randomises key material / serials
+	TLS12    bool   `json:"tls12"`  // peer limits itself to TLS 1.2
+	Hint     bool   `json:"hint"`   // client role of the peer: stock behaviour (respect the CA hint) instead of sending regardless
+	SerialNo int64  `json:"serial"` // randomises key material / serials
 }
 
 var c19ClientPeers = []string{"A_leaf", "A_via_intermediate", "self_signed", "B_leaf", "A_expired", "A_expired_90s_ago", "A_not_yet_valid", "A_valid_in_90s", "A_server_auth_only", "none"}
@@ -115,12 +117,12 @@ func c19NewLeaf(name string, serial int64, ca *c19CA, o c19LeafOpt) (tls.Certifi
 }
 
 type c19PKI struct {
-	dir              string
-	caA, caB, caX    *c19CA
-	interA           *c19CA
-	bundlePath       string
-	ownCert, ownKey  string
-	serverName       string
+	dir             string
+	caA, caB, caX   *c19CA
+	interA          *c19CA
+	bundlePath      string
+	ownCert, ownKey string
+	serverName      string
 }
 
 func c19Setup(t *testing.T, c c19Case) *c19PKI {
@@ -187,6 +189,46 @@ func c19PeerCred(p *c19PKI, c c19Case) (cred *tls.Certificate, chainOK bool) {
 		return mk(p.caA, c19LeafOpt{eku: []x509.ExtKeyUsage{x509.ExtKeyUsageClientAuth}, dns: name}), false
 	}
 	panic("unknown peer class " + c.Peer)
+}
+
+// c19V1SelfSigned hand-assembles a self-signed X.509 *version 1* certificate (crypto/x509 only issues v3): the
+// TBSCertificate without the version field and without extensions, signed with ECDSA-SHA256.
+func c19V1SelfSigned() []byte {
+	key, _ := ecdsa.GenerateKey(elliptic.P256(), rand.Reader)
+	spki, _ := x509.MarshalPKIXPublicKey(&key.PublicKey)
+	name, _ := asn1.Marshal(pkix.Name{CommonName: "legacy v1 peer"}.ToRDNSequence())
+	type validity struct{ NotBefore, NotAfter time.Time }
+	type algID struct{ Algorithm asn1.ObjectIdentifier }
+	ecdsaSHA256 := algID{Algorithm: asn1.ObjectIdentifier{1, 2, 840, 10045, 4, 3, 2}}
+	type tbs struct {
+		Serial   *big.Int
+		SigAlg   algID
+		Issuer   asn1.RawValue
+		Validity validity
+		Subject  asn1.RawValue
+		SPKI     asn1.RawValue
+	}
+	t := tbs{Serial: big.NewInt(4242), SigAlg: ecdsaSHA256, Issuer: asn1.RawValue{FullBytes: name},
+		Validity: validity{time.Now().Add(-time.Hour).UTC(), time.Now().Add(24 * time.Hour).UTC()}, Subject: asn1.RawValue{FullBytes: name}, SPKI: asn1.RawValue{FullBytes: spki}}
+	tbsDER, err := asn1.Marshal(t)
+	if err != nil {
+		return nil
+	}
+	h := sha256.Sum256(tbsDER)
+	sig, err := ecdsa.SignASN1(rand.Reader, key, h[:])
+	if err != nil {
+		return nil
+	}
+	type cert struct {
+		TBS    asn1.RawValue
+		SigAlg algID
+		Sig    asn1.BitString
+	}
+	der, err := asn1.Marshal(cert{TBS: asn1.RawValue{FullBytes: tbsDER}, SigAlg: ecdsaSHA256, Sig: asn1.BitString{Bytes: sig, BitLength: len(sig) * 8}})
+	if err != nil {
+		return nil
+	}
+	return pem.EncodeToMemory(&pem.Block{Type: "CERTIFICATE", Bytes: der})
 }
 
 // c19BuildOthers: a proxy process holds several TLS blocks (inbound/outbound, TCP/mux, intra-proxy). After the
@@ -414,7 +456,11 @@ func TestVF_C19_Matrix(t *testing.T) {
 	_ = os.WriteFile(ownKey, keyPEM, 0o600)
 	empty := filepath.Join(dir, "empty.pem")
 	_ = os.WriteFile(empty, []byte("not a pem"), 0o600)
-	for _, bad := range []string{leafOnly, filepath.Join(dir, "missing.pem"), empty} {
+	// a self-signed end-entity certificate of X.509 version 1 (no extensions at all, so nothing says "CA") and one of
+	// version 3 without basicConstraints: neither is a CA certificate
+	v1Only := filepath.Join(dir, "v1-selfsigned.pem")
+	_ = os.WriteFile(v1Only, c19V1SelfSigned(), 0o600)
+	for _, bad := range []string{leafOnly, filepath.Join(dir, "missing.pem"), empty, v1Only} {
 		if cfg, err := GetServerTLSConfig(TLSConfig{CertificatePath: own, KeyPath: ownKey, RemoteCAPath: bad}, log.NewNoopLogger()); err == nil {
 			c19Fail(t, st, part, map[string]string{"ca_bundle": bad, "role": "server"}, fmt.Sprintf("server TLS config built from a CA bundle without a usable CA certificate (%s): %v", filepath.Base(bad), cfg != nil))
 		}
